@@ -136,13 +136,17 @@ def record_decode(rid, payload, labelmsm=1, via="ctor", fields=None, frame=None,
         if omit is None:
             omit = _calls[0] % 2 == 0
         kw = {} if (omit and labelmsm == 1 and labelmsm is not True) else {"labelmsm": labelmsm}
+        # the buffer comes as bytes, bytearray or a (writable) memoryview: all are "bytes" to a parser
+        bt = _calls[0] % 5
+        def buf(b):
+            return bytes(b) if bt < 3 else (bytearray(b) if bt == 3 else memoryview(bytearray(b)))
         if via == "ctor":
-            msg = RTCMMessage(payload=bytes(payload), **kw)
+            msg = RTCMMessage(payload=buf(payload) if bt != 4 else bytes(payload), **kw)
         elif via == "parse":
             rec["p"] = []
             if not (omit and validate == 1):
                 kw["validate"] = validate
-            msg = RTCMReader.parse(bytes(frame), **kw)
+            msg = RTCMReader.parse(buf(frame), **kw)
         else:
             import io
 
